@@ -196,12 +196,18 @@ def run_program(prog, schedule, first=0, max_steps=None):
                 # programs with a blocking receiver give every receiver a fixed quota (a blocking call must be
                 # guaranteed a message); otherwise all receivers compete until everything has been received, so that
                 # several receivers can go for the same last message
-                use_quota = any(x['mode'] == 'receive' for x in prog['receivers'])
+                use_quota = any(x['mode'] in ('receive', 'iterate') for x in prog['receivers'])
                 while (len(got) < quota) if use_quota else (sum(len(g) for g in received) < expected_total):
                     me.in_op = True
                     if mode == 'receive' and prog['port'] != 'pqueue':
                         m = port.receive()
                         items = [m]
+                    elif mode == 'iterate' and prog['port'] != 'pqueue':
+                        items = []
+                        for m in port:                  # `for msg in port`: blocks for the next message
+                            items.append(m)
+                            if len(got) + len(items) >= quota:
+                                break
                     elif mode == 'iter_pending' and prog['port'] != 'pqueue':
                         items = []
                         for m in port.iter_pending():
@@ -398,6 +404,10 @@ def small_programs():
             # two receivers, each ready to take everything (a drain loop and a poller competing for the queued rest)
             progs.append({'port': port, 'senders': [2], 'receivers': [{'mode': 'iter_pending', 'quota': two},
                                                                      {'mode': 'poll', 'quota': two}]})
+        if port not in ('pqueue',):
+            # a receiver that iterates over the port (`for msg in port`) next to one that polls
+            progs.append({'port': port, 'senders': [2], 'receivers': [{'mode': 'iterate', 'quota': two // 2},
+                                                                     {'mode': 'poll', 'quota': two - two // 2}]})
         # two receivers going for a single message / for the last message
         progs.append({'port': port, 'senders': [1], 'receivers': [{'mode': 'poll', 'quota': 1},
                                                                  {'mode': 'poll', 'quota': 1}]})
@@ -412,7 +422,10 @@ def window_shard(rec, shard):
     thread has to be stopped inside its own critical section shortly after the first one was)."""
     which, k, n = shard
     prog = [{'port': 'wire', 'senders': [1, 1], 'receivers': [{'mode': 'poll', 'quota': 2}], 'sysex': True},
-            {'port': 'ioport-shared', 'senders': [1, 1], 'receivers': [{'mode': 'poll', 'quota': 2}]}][which]
+            {'port': 'ioport-shared', 'senders': [1, 1], 'receivers': [{'mode': 'poll', 'quota': 2}]},
+            {'port': 'keep', 'senders': [2], 'receivers': [{'mode': 'iterate', 'quota': 1}, {'mode': 'poll', 'quota': 1}]},
+            {'port': 'ioport-pair', 'senders': [2], 'receivers': [{'mode': 'iterate', 'quota': 1},
+                                                                  {'mode': 'poll', 'quota': 1}]}][which]
     idx = 0
     for first in (0, 1):
         rec.execute({'prog': prog, 'sched': [], 'first': first})
@@ -481,7 +494,7 @@ def drawn_cases(draw):
     senders = draw(st.lists(st.integers(1, 3), min_size=1, max_size=3))
     total = sum(senders) * (2 if port.startswith('multi') else 1)
     nrec = draw(st.integers(1, 2))
-    modes = ['poll'] if port == 'pqueue' else ['poll', 'receive', 'iter_pending']
+    modes = ['poll'] if port == 'pqueue' else ['poll', 'receive', 'iter_pending', 'iterate']
     if nrec == 1:
         recs = [{'mode': draw(st.sampled_from(modes)), 'quota': total}]
     else:
@@ -520,7 +533,7 @@ def main(ctx):
                                      f'{len(progs)} fixed small programs (the later device doubles keep / wire-direct and the '
                                      f'codec-preemptible programs: at most 1); larger programs / denser schedules sampled')
     if ctx.tier == 'quick':
-        ctx.pmap('window_shard', [(w, k, 8) for w in (0, 1) for k in range(8)])
+        ctx.pmap('window_shard', [(w, k, 8) for w in ((0, 1, 2, 3) if not ctx.reduced else (0, 1)) for k in range(8)])
         if not ctx.reduced:
             ctx.pmap('triple_shard', [(w, k, 4) for w in (0, 1) for k in range(4)])
     else:
